@@ -9,7 +9,7 @@ results were consumed, memory-limit exit) is harness/c03.py.
 from typing import List
 import billiard.pool as bp
 from billiard.exceptions import WorkerLostError
-from harness.hbase import fail, tier, Prune, ND, trace, PART, NPART, untraced
+from harness.hbase import fail, tier, Prune, ND, trace, PART, NPART, untraced, NDCode, CODEMAX
 from harness import world as W
 
 K = tier(5, 6)
@@ -34,7 +34,7 @@ def _size(nd, want):
             k = nd.draw(0, 2)
             if k >= len(p._pool) or p._pool[k].exitcode is not None:
                 raise Prune()
-            w.w_exit(p._pool[k], nd.draw(-15, 156))
+            w.w_exit(p._pool[k], (-15, -9, 0, 1, 155, 156)[nd.draw(0, 5)])
         elif e == 1:
             if p._processes >= 4:
                 raise Prune()
@@ -69,24 +69,24 @@ def _size(nd, want):
     return True
 
 
-def h_size(ev: List[int]) -> bool:
+def h_size(code: int) -> bool:
     """
-    pre: len(ev) == 3 * K
+    pre: 0 <= code < CODEMAX
     post: _
     """
     try:
-        return _size(ND(ev), None)
+        return _size(NDCode(code), None)
     except Prune:
         return True
 
 
-def h_size_twin(ev: List[int]) -> bool:
+def h_size_twin(code: int) -> bool:
     """
-    pre: len(ev) == 3 * K
+    pre: 0 <= code < CODEMAX
     post: _
     """
     try:
-        return _size(ND(ev), 'shrink')
+        return _size(NDCode(code), 'shrink')
     except Prune:
         return True
 
@@ -116,7 +116,7 @@ def _recycle(nd, kind, quota, want):
         expect = [('r', t) for t in items]
         w.feed()
     recycled = 0
-    for _ in range(K + 1):
+    for _ in range(K + 3):
         e = nd.draw(0, 4)
         if e <= 1:
             x = p._pool[e] if e < len(p._pool) else None
@@ -188,23 +188,23 @@ def _recycle(nd, kind, quota, want):
 KINDS = ('apply', 'map', 'imap', 'imapu')
 
 
-def h_recycle(quota: int, ev: List[int]) -> bool:
+def h_recycle(code: int) -> bool:
     """
-    pre: 1 <= quota <= 2 and len(ev) == 2 * (K + 1) and quota == 1 + (PART // 4) % 2
+    pre: 0 <= code < CODEMAX
     post: _
     """
     try:
-        return _recycle(ND(ev), KINDS[PART % 4], 1 + (PART // 4) % 2, False)
+        return _recycle(NDCode(code), KINDS[PART % 4], 1 + (PART // 4) % 2, False)
     except Prune:
         return True
 
 
-def h_recycle_twin(quota: int, ev: List[int]) -> bool:
+def h_recycle_twin(code: int) -> bool:
     """
-    pre: 1 <= quota <= 2 and len(ev) == 2 * (K + 1) and quota == 1 + (PART // 4) % 2
+    pre: 0 <= code < CODEMAX
     post: _
     """
     try:
-        return _recycle(ND(ev), KINDS[PART % 4], 1 + (PART // 4) % 2, True)
+        return _recycle(NDCode(code), KINDS[PART % 4], 1 + (PART // 4) % 2, True)
     except Prune:
         return True
